@@ -359,8 +359,8 @@ def replay_postfixes(case):
         m.orientations.append(m.orientations[0][::-1].copy())
         # "all float64 contents": round-off just outside [0, 1], unnormalised volumes, huge / tiny / signed-zero values,
         # orientation entries beyond [-1, 1] -- persistence must not touch any bit
-        odd_f = np.resize(np.array([-3e-17, 1.0000000000000002, 2.5, 1e-310, -0.0, 1e300, 0.1 + 0.2]), m.n_grains)
-        odd_o = np.resize(np.array([1.0000000000000002, -1.0000000000000002, 3.5, -0.0, 5e-324, 1 / 3]), m.n_grains * 9).reshape(m.n_grains, 3, 3)
+        odd_f = np.resize(np.array([-3e-17, 1.0000000000000002, 2.5, 1e-310, -0.0, 1e300, 0.1 + 0.2, np.nan, np.inf, -np.inf]), m.n_grains + 3)[3:]
+        odd_o = np.resize(np.array([1.0000000000000002, -1.0000000000000002, 3.5, -0.0, 5e-324, 1 / 3, np.nan, -np.inf]), m.n_grains * 9).reshape(m.n_grains, 3, 3)
         m.fractions.append(odd_f)
         m.orientations.append(odd_o)
         m.save(f, postfix=pf)
